@@ -659,6 +659,8 @@ class TextXMetaModel(DebugPrinter):
             if namespace in self.referenced_languages:
                 language = self.referenced_languages[namespace]
                 referenced_metamodel = metamodel_for_language(language)
+                if isinstance(referenced_metamodel, TextXMetaMetaModel):
+                    referenced_metamodel = referenced_metamodel.metamodel
                 return referenced_metamodel[name]
             else:
                 return self.namespaces[namespace][name]
